@@ -292,7 +292,20 @@ Proof.
 Qed.
 
 (** * findPruneableHeaders *)
-Definition first_h (lp : hdr) : Z := if fst lp =? 1 then 1 else fst lp + 1.
+Definition first_h (ck : Z) (lp : hdr) : Z := if prepend ck lp then fst lp else fst lp + 1.
+
+Lemma start_consec st ck lp hs0 :
+  in_store st lp -> consec st (fst lp + 1) hs0 -> consec st (first_h ck lp) (if prepend ck lp then lp :: hs0 else hs0).
+Proof.
+  intros Hlp C0. unfold first_h. destruct (prepend ck lp); [|assumption].
+  apply consec_cons; [assumption|reflexivity|assumption].
+Qed.
+
+Lemma start_nonempty ck lp (hs0 : list hdr) : hs0 <> [] -> (if prepend ck lp then lp :: hs0 else hs0) <> [].
+Proof. intros H. destruct (prepend ck lp); [discriminate|assumption]. Qed.
+
+Lemma first_h_range ck lp : fst lp <= first_h ck lp <= fst lp + 1.
+Proof. unfold first_h. destruct (prepend ck lp); lia. Qed.
 
 Lemma est_le_head c lp cut headH : est_cutoff c lp cut headH <= headH \/ est_cutoff c lp cut headH <= fst lp.
 Proof.
@@ -312,9 +325,9 @@ Qed.
 
 (** the shape of every result: store headers of consecutive heights right after lastPruned (from lastPruned itself at
     height 1), none newer than the cutoff, at most the batch limit *)
-Lemma find_shape c st lp hd hs :
-  in_store st lp -> head_of st = Some hd -> find c st lp = Ok hs ->
-  consec st (first_h lp) hs /\ Forall (fun x => snd x <= snd hd - window c) hs.
+Lemma find_shape c st ck lp hd hs :
+  in_store st lp -> head_of st = Some hd -> find c st ck lp = Ok hs ->
+  consec st (first_h ck lp) hs /\ Forall (fun x => snd x <= snd hd - window c) hs.
 Proof.
   intros Hlp Hh. unfold find. rewrite Hh.
   destruct (negb (snd lp <? snd hd - window c)); [intros H; inversion H; split; [apply consec_nil|constructor]|].
@@ -325,14 +338,12 @@ Proof.
   destruct (get_seq_consec _ _ _ _ G) as [C0 _].
   destruct (extend _ c st _ _) as [r| |] eqn:E; try discriminate.
   intros H; inversion H; subst. split; [|apply take_le_le].
-  assert (C1 : consec st (first_h lp) (if fst lp =? 1 then lp :: hs0 else hs0)).
-  { unfold first_h. destruct (fst lp =? 1) eqn:E1; [|assumption]. apply Z.eqb_eq in E1.
-    apply consec_cons; [assumption|assumption|]. rewrite E1 in C0. exact C0. }
+  pose proof (start_consec st ck lp hs0 Hlp C0) as C1.
   pose proof (extend_consec _ _ _ _ _ _ _ C1 E) as C2.
   destruct (take_le_prefix (snd hd - window c) r) as [k ->]. now apply consec_firstn.
 Qed.
 
-Lemma find_length c st lp hs : 0 <= maxh c -> find c st lp = Ok hs -> Z.of_nat (length hs) <= maxh c.
+Lemma find_length c st ck lp hs : 0 <= maxh c -> find c st ck lp = Ok hs -> Z.of_nat (length hs) <= maxh c.
 Proof.
   intros Hm. unfold find. destruct (head_of st) as [hd|]; [|discriminate].
   destruct (negb _); [intros H; inversion H; simpl; lia|].
@@ -344,7 +355,7 @@ Proof.
 Qed.
 
 (** the search itself always terminates *)
-Lemma find_no_oof c st lp : in_store st lp -> find c st lp <> OutOfFuel.
+Lemma find_no_oof c st ck lp : in_store st lp -> find c st ck lp <> OutOfFuel.
 Proof.
   intros Hlp. unfold find. destruct (head_of st) as [hd|] eqn:Hh; [|discriminate].
   destruct (negb _); [discriminate|].
@@ -352,19 +363,17 @@ Proof.
   unfold get_range. destruct (_ <=? fst lp + 1); [discriminate|].
   destruct (get_seq st (fst lp + 1) _) as [hs0|] eqn:G; [|discriminate].
   destruct (get_seq_consec _ _ _ _ G) as [C0 L0].
-  assert (C1 : consec st (first_h lp) (if fst lp =? 1 then lp :: hs0 else hs0)).
-  { unfold first_h. destruct (fst lp =? 1) eqn:E1; [|assumption]. apply Z.eqb_eq in E1.
-    apply consec_cons; [assumption|assumption|]. rewrite E1 in C0. exact C0. }
-  assert (Hne : (if fst lp =? 1 then lp :: hs0 else hs0) <> []).
-  { destruct (fst lp =? 1); [discriminate|]. intros ->. simpl in L0. lia. }
+  pose proof (start_consec st ck lp hs0 Hlp C0) as C1.
+  assert (Hne : (if prepend ck lp then lp :: hs0 else hs0) <> []).
+  { apply start_nonempty. intros ->. simpl in L0. lia. }
   pose proof (extend_ok c st (snd hd - window c) (find_fuel st) _ _ C1 Hne) as X.
   destruct (extend _ c st _ _) eqn:E; try discriminate. exfalso. apply X; [|reflexivity].
   pose proof (get_range_h _ _ _ Hlp) as HR. unfold first_h, find_fuel. unfold s_headH, s_len in *.
-  destruct (fst lp =? 1) eqn:E1; [apply Z.eqb_eq in E1|]; simpl length; lia.
+  destruct (prepend ck lp); simpl length; lia.
 Qed.
 
 (** with a positive window and a last-pruned header of the store the search does not fail *)
-Lemma find_no_err c st lp : 0 < window c -> in_store st lp -> find c st lp <> Err.
+Lemma find_no_err c st ck lp : 0 < window c -> in_store st lp -> find c st ck lp <> Err.
 Proof.
   intros Hw Hlp. unfold find.
   destruct (head_of_nonempty _ _ Hlp) as [hd Hh]. rewrite Hh.
@@ -376,11 +385,9 @@ Proof.
   unfold get_range. destruct (_ <=? fst lp + 1) eqn:E1; [apply Z.leb_le in E1; lia|].
   destruct (get_seq_total st (fst lp + 1) (Z.to_nat (est_cutoff c lp (snd hd - window c) (fst hd) + 1 - (fst lp + 1)))) as [hs0 G]; [lia|lia|].
   rewrite G. destruct (get_seq_consec _ _ _ _ G) as [C0 L0].
-  assert (C1 : consec st (first_h lp) (if fst lp =? 1 then lp :: hs0 else hs0)).
-  { unfold first_h. destruct (fst lp =? 1) eqn:E2; [|assumption]. apply Z.eqb_eq in E2.
-    apply consec_cons; [assumption|assumption|]. rewrite E2 in C0. exact C0. }
-  assert (Hne : (if fst lp =? 1 then lp :: hs0 else hs0) <> []).
-  { destruct (fst lp =? 1); [discriminate|]. intros ->. simpl in L0. lia. }
+  pose proof (start_consec st ck lp hs0 Hlp C0) as C1.
+  assert (Hne : (if prepend ck lp then lp :: hs0 else hs0) <> []).
+  { apply start_nonempty. intros ->. simpl in L0. lia. }
   pose proof (extend_no_err c st (snd hd - window c) hd (find_fuel st) _ _ Hh ltac:(lia) C1 Hne) as X.
   destruct (extend _ c st _ _); try discriminate. congruence.
 Qed.
@@ -392,25 +399,32 @@ Definition sorted_st (st : store) : Prop :=
 Lemma in_store_inj st x y : in_store st x -> in_store st y -> fst x = fst y -> x = y.
 Proof. unfold in_store. intros Hx Hy E. rewrite E in Hx. congruence. Qed.
 
-(** completeness: when the batch is not full, no header above it is older than the cutoff by more than one block time
-    ([last hs lp] is lastPruned itself when nothing was found) *)
-Lemma find_complete c st lp hd hs :
-  sorted_st st -> 0 < btime c -> 1 <= maxh c ->
-  in_store st lp -> head_of st = Some hd -> find c st lp = Ok hs ->
+(** completeness: when the batch is not full, no header above it is older than the cutoff by more than one block time.
+    [upto] is the last height dealt with: the end of the batch, or - when nothing was found - the height before the first
+    candidate (lastPruned itself, or the one before it when lastPruned is a candidate too) *)
+Definition upto (ck : Z) (lp : hdr) (hs : list hdr) : Z :=
+  match hs with [] => first_h ck lp - 1 | _ => fst (last hs lp) end.
+
+Lemma find_complete c st ck lp hd hs :
+  sorted_st st -> 0 < window c -> 0 < btime c -> 1 <= maxh c ->
+  in_store st lp -> head_of st = Some hd -> find c st ck lp = Ok hs ->
   Z.of_nat (length hs) < maxh c ->
-  forall x, in_store st x -> fst (last hs lp) < fst x -> snd hd - window c <= snd x + btime c.
+  forall x, in_store st x -> upto ck lp hs < fst x -> snd hd - window c <= snd x + btime c.
 Proof.
-  intros Hs Hb Hm Hlp Hh Hf Hlen x Hx Hgt.
-  pose proof (find_shape _ _ _ _ _ Hlp Hh Hf) as [Csh _].
+  intros Hs Hw Hb Hm Hlp Hh Hf Hlen x Hx Hgt.
+  pose proof (first_h_range ck lp) as FR.
+  pose proof (find_shape _ _ _ _ _ _ Hlp Hh Hf) as [Csh _].
   revert Hf. unfold find. rewrite Hh. set (cut := snd hd - window c) in *.
   destruct (snd lp <? cut) eqn:E0; cbn [negb].
-  2:{ intros H; inversion H; subst. simpl in Hgt. apply Z.ltb_ge in E0.
+  2:{ intros H; inversion H; subst. unfold upto in Hgt. apply Z.ltb_ge in E0.
       pose proof (Hs lp x Hlp Hx ltac:(lia)). lia. }
   apply Z.ltb_lt in E0.
   destruct (est_cutoff c lp cut (fst hd) <=? fst lp) eqn:E1.
-  { intros H; inversion H; subst. simpl in Hgt. apply Z.leb_le in E1.
+  { intros H; inversion H; subst. unfold upto in Hgt. apply Z.leb_le in E1.
     destruct (head_of_some _ _ Hh) as [HdI HdF]. pose proof (get_range_h _ _ _ Hx) as HRx.
     pose proof (Hs lp x Hlp Hx ltac:(lia)).
+    assert (Hhead : fst hd <= fst lp -> False).
+    { intros Hle. pose proof (get_range_h _ _ _ Hlp). assert (hd = lp) by (apply (in_store_inj st); auto; lia). subst hd. unfold cut in E0. lia. }
     unfold est_cutoff in E1.
     destruct (fst hd <? fst lp + (cut - snd lp) ÷ btime c) eqn:E2;
     [apply Z.ltb_lt in E2|apply Z.ltb_ge in E2].
@@ -426,11 +440,9 @@ Proof.
   destruct (get_range _ _ _) as [hs0|] eqn:G; [|discriminate].
   match goal with |- context [extend ?f c st cut ?l] => destruct (extend f c st cut l) as [r| |] eqn:E end; try discriminate.
   intros H; inversion H as [Hhs]. clear H.
-  assert (C1 : consec st (first_h lp) (if fst lp =? 1 then lp :: hs0 else hs0)).
+  assert (C1 : consec st (first_h ck lp) (if prepend ck lp then lp :: hs0 else hs0)).
   { unfold get_range in G. destruct (_ <=? fst lp + 1); [discriminate|].
-    destruct (get_seq_consec _ _ _ _ G) as [C0 L0].
-    unfold first_h. destruct (fst lp =? 1) eqn:E2; [|assumption]. apply Z.eqb_eq in E2.
-    apply consec_cons; [assumption|assumption|]. rewrite E2 in C0. exact C0. }
+    destruct (get_seq_consec _ _ _ _ G) as [C0 L0]. now apply start_consec. }
   pose proof (extend_consec _ _ _ _ _ _ _ C1 E) as C2.
   assert (Hshort : (length (take_le cut r) < length r)%nat).
   { assert (Hm0 : 0 <= maxh c) by lia.
@@ -452,16 +464,16 @@ Proof.
   (* y is the store header right after the batch *)
   assert (HyI : In y r) by (eapply nth_error_In; eauto).
   destruct (consec_in _ _ _ _ C2 HyI) as [HyS _].
-  assert (HyH : fst y = first_h lp + Z.of_nat (length hs)).
+  assert (HyH : fst y = first_h ck lp + Z.of_nat (length hs)).
   { destruct C2 as [M _]. assert (nth_error (map fst r) (length hs) = Some (fst y)) by (now apply map_nth_error).
-    rewrite M in H. clear - H Hshort. revert H Hshort. generalize (first_h lp) as a. generalize (length hs) as n.
+    rewrite M in H. clear - H Hshort. revert H Hshort. generalize (first_h ck lp) as a. generalize (length hs) as n.
     generalize (length r) as m. induction m; intros n a H Hs; [lia|].
     destruct n; simpl in *; [inversion H; lia|]. apply IHm in H; lia. }
   destruct hs as [|h0 hr].
-  - simpl in Hgt, HyH. unfold first_h in HyH. destruct (fst lp =? 1) eqn:E2.
-    + apply Z.eqb_eq in E2. assert (y = lp) by (apply (in_store_inj st); auto; lia). subst. lia.
+  - simpl in HyH. unfold upto, first_h in *. destruct (prepend ck lp).
+    + assert (y = lp) by (apply (in_store_inj st); auto; lia). subst. lia.
     + pose proof (Hs y x HyS Hx ltac:(lia)). lia.
   - assert (Hne : h0 :: hr <> []) by discriminate.
-    pose proof (consec_last _ _ _ lp Csh Hne) as HL.
+    pose proof (consec_last _ _ _ lp Csh Hne) as HL. unfold upto in Hgt.
     pose proof (Hs y x HyS Hx ltac:(lia)). lia.
 Qed.
